@@ -405,3 +405,4 @@ PROPS["C01"]["mir"].append(ob("storage_read_glue", "ob_blobread", "storage_read_
 PROPS["C02"]["mir"].append(ob("storage_read_glue_c02", "ob_blobread", "storage_read_glue"))
 PROPS["C02"]["mir"].append(ob("delete_entry_glue", "ob_delete", "delete_entry_glue"))
 PROPS["C15"]["mir"].append(ob("records_count_rows", "ob_misc", "records_count_rows", kwargs={"B": 2}, thorough_kwargs={"B": 3}))
+PROPS["C15"]["mir"].append(ob("disk_used_sum", "ob_misc", "disk_used_sum", kwargs={"B": 2}))
